@@ -629,6 +629,75 @@ package rueidis
 //@   loop 0: invariant [C12] (calls(fn) == 0 ==> attrs == nil) && (calls(fn) >= 1 ==> (attrs != nil && attrs.typ == '|')) && calls(fn) >= 0
 
 // ---------------------------------------------------------------------------------------------
+// C20 — cluster batches: every command is queued together with its own input index, the transaction flag used for
+// the re-send decision belongs to the placement that is used, and a redirected MULTI..EXEC block is re-queued whole.
+//@ func clusterClient._pickMulti
+//@   modifies *
+//@   ensures [C20 flag-says-whether-the-batch-has-slotless-commands] retries != nil ==> (init <==> (exists k int :: 0 <= k && k < len(multi) && old(multi[k].ks) == cmds.InitSlot))
+//@   assert [C20 flag-is-computed-from-the-commands-alone] at RLock: init <==> (exists k int :: 0 <= k && k < len(multi) && old(multi[k].ks) == cmds.InitSlot)
+//@   loop 0: invariant [C20] !init && rangeindex >= -1 && rangeindex < len(multi) && (forall k int :: (0 <= k && k <= rangeindex) ==> multi[k].ks != cmds.InitSlot)
+//@   assert [C20 command-is-queued-with-its-own-input-index] at append#1: len(arg1) == 1 && arg1[0] == multi[i]
+//@   assert [C20 command-is-queued-with-its-own-input-index] at append#2: len(arg1) == 1 && arg1[0] == i
+//@   assert [C20 command-is-queued-with-its-own-input-index] at append#3: len(arg1) == 1 && arg1[0] == multi[i]
+//@   assert [C20 command-is-queued-with-its-own-input-index] at append#4: len(arg1) == 1 && arg1[0] == i
+
+//@ func clusterClient.doresultfn #c20
+//@   modifies *
+//@   assert [C20 reply-is-stored-at-the-input-position-of-its-command] at shouldRefreshRetry: results.s[cIndexes[i]] == resps[i]
+//@   loop 3: invariant [C20 every-member-of-a-redirected-transaction-is-requeued] i >= mi && calls(append) == atentry(calls(append)) + 2 * (i - mi)
+//@   assert [C20 transaction-member-requeued-with-its-own-input-index] at append#1: len(arg1) == 1 && arg1[0] == cIndexes[i]
+//@   assert [C20 transaction-member-requeued-with-its-own-input-index] at append#2: len(arg1) == 1 && arg1[0] == commands[i]
+//@   assert [C20 transaction-member-requeued-with-its-own-input-index] at append#3: len(arg1) == 1 && arg1[0] == cIndexes[i]
+//@   assert [C20 transaction-member-requeued-with-its-own-input-index] at append#4: len(arg1) == 1 && arg1[0] == commands[i]
+//@   assert [C20 single-command-requeued-with-its-own-input-index] at append#5: len(arg1) == 1 && arg1[0] == before(shouldRefreshRetry, cIndexes[i])
+//@   assert [C20 single-command-requeued-with-its-own-input-index] at append#6: len(arg1) == 1 && arg1[0] == before(shouldRefreshRetry, commands[i])
+//@   assert [C20 single-command-requeued-with-its-own-input-index] at append#7: len(arg1) == 1 && arg1[0] == before(shouldRefreshRetry, cIndexes[i])
+//@   assert [C20 single-command-requeued-with-its-own-input-index] at append#8: len(arg1) == 1 && arg1[0] == before(shouldRefreshRetry, commands[i])
+
+//@ func clusterClient.resultcachefn #c20
+//@   modifies *
+//@   assert [C20 reply-is-stored-at-the-input-position-of-its-command] at shouldRefreshRetry: results.s[cIndexes[i]] == resps[i]
+//@   assert [C20 single-command-requeued-with-its-own-input-index] at append#1: len(arg1) == 1 && arg1[0] == before(shouldRefreshRetry, cIndexes[i])
+//@   assert [C20 single-command-requeued-with-its-own-input-index] at append#2: len(arg1) == 1 && arg1[0] == before(shouldRefreshRetry, commands[i])
+//@   assert [C20 single-command-requeued-with-its-own-input-index] at append#3: len(arg1) == 1 && arg1[0] == before(shouldRefreshRetry, cIndexes[i])
+//@   assert [C20 single-command-requeued-with-its-own-input-index] at append#4: len(arg1) == 1 && arg1[0] == before(shouldRefreshRetry, commands[i])
+
+// the per-node worker hands the result function the index list that belongs to the command list it sent
+//@ func clusterClient.doretry #c20
+//@   modifies *
+//@   assert [C20 replies-are-matched-with-the-indexes-of-the-commands-sent] at doresultfn#1: arg6 == re.cIndexes && arg7 == re.commands && arg8 == resps.s && arg10 == hasInit
+//@   assert [C20 asking-replies-are-matched-with-the-indexes-of-the-asking-commands] at doresultfn#2: arg6 == re.aIndexes && arg7 == re.cAskings && arg8 == resps.s && arg10 == hasInit
+//@   assert [C20 asking-commands-are-sent-through-the-asking-path] at askingMulti: arg3 == re.cAskings
+//@ func clusterClient.doretrycache #c20
+//@   modifies *
+//@   assert [C20 replies-are-matched-with-the-indexes-of-the-commands-sent] at resultcachefn#1: arg6 == re.cIndexes && arg7 == re.commands && arg8 == resps.s
+//@   assert [C20 asking-replies-are-matched-with-the-indexes-of-the-asking-commands] at resultcachefn#2: arg6 == re.aIndexes && arg7 == re.cAskings && arg8 == resps.s
+//@   assert [C20 asking-commands-are-sent-through-the-asking-path] at askingMultiCache: arg3 == re.cAskings
+
+// ASKING goes in front of every redirected command, once in front of a whole MULTI..EXEC block; every command is sent once, in order
+//@ func clusterClient.askingMulti #c20
+//@   modifies *
+//@   assert [C20 inside-a-transaction-the-command-is-sent-bare] at append#1: inTx && len(arg1) == 1 && arg1[0] == multi[rangeindex + 1]
+//@   assert [C20 outside-a-transaction-asking-precedes-the-command] at append#2: !inTx && len(arg1) == 2 && arg1[0] == cmds.AskingCmd && arg1[1] == multi[rangeindex + 1]
+//@   loop 0: invariant [C20 every-command-is-sent-exactly-once-in-order] calls(append) == rangeindex + 1 && rangeindex >= -1
+
+//@ func clusterClient._pickMultiCache
+//@   modifies *
+//@   assert [C20 command-is-queued-with-its-own-input-index] at append#1: len(arg1) == 1 && arg1[0] == multi[i]
+//@   assert [C20 command-is-queued-with-its-own-input-index] at append#2: len(arg1) == 1 && arg1[0] == i
+//@   assert [C20 command-is-queued-with-its-own-input-index] at append#3: len(arg1) == 1 && arg1[0] == multi[i]
+//@   assert [C20 command-is-queued-with-its-own-input-index] at append#4: len(arg1) == 1 && arg1[0] == i
+
+//@ func clusterClient.DoMulti #c20
+//@   modifies *
+//@   assert [C20 workers-get-the-placement-and-flag-of-the-pick] at doretry: arg4 == first(returned(pickMulti)) && arg9 == second(returned(pickMulti)) && arg3 == results
+//@   assert [C20 one-result-slot-per-command] at Get: arg1 == len(multi) && arg2 == len(multi)
+
+//@ func clusterClient.pickMulti
+//@   modifies *
+//@   ensures [C20 placement-and-transaction-flag-come-from-the-same-pick] result2 == nil ==> (result0 == first(returned(_pickMulti)) && result1 == second(returned(_pickMulti)) && result0 != nil)
+
+// ---------------------------------------------------------------------------------------------
 // C07 — cached replies expire at the earlier of the client TTL and the server PTTL (message.go, lru.go).
 // The expiry of a cached message is the 56-bit little-endian number kept in RedisMessage.ttl (0 = none).
 //@ func RedisMessage.setExpireAt
